@@ -1,6 +1,6 @@
 CLAIM = ("Verdict of check/extract <=> (decoded length == recorded length AND CRC-16 == recorded CRC [AND all writes complete]) "
          "with a scripted nondeterministic decoder under the real reader/basic-reader/decoder/CRC code; burst-error detection of the "
-         "real CRC routine for bursts <= 16 bits; exit-status aggregation over members and in main(); a preceding operation on the same member does not lend its result.")
+         "real CRC routine for bursts <= 16 bits; the exit status, stated on main(): real main/do_command with the real test/extract command loops over 0..260 members with arbitrary per-member verdicts - the low 8 bits of main's return value are 0 exactly when no selected member failed (exit.many.*; independent of the return conventions between the functions); a preceding operation on the same member does not lend its result.")
 ASSUMPTIONS = ["arch layer, stdio and header parser are stubs (arbitrary results)", "MacBinary members are excluded from verdict.* (os_type != 'm')"]
 R = ["lib/lha_reader.c", "lib/lha_basic_reader.c", "lib/lha_decoder.c", "lib/crc16.c"]
 X = ["lib/lha_basic_reader.c", "lib/lha_decoder.c", "lib/crc16.c"]
@@ -23,4 +23,13 @@ HARNESSES = [MAIN,
          units=["src/extract.c:test_file_crc,extract_archive,test_archived_file_crc,extract_archived_file"], timeout=300,
          bounds="<= 3 members with arbitrary per-member verdicts, test and extract commands, quiet 0..2",
          stubs=["lha_filter_next_file, lha_reader_check/_extract: arbitrary verdict per member", "arch layer: nothing exists, mkdir succeeds", "printing: no-ops"]),
+] + [
+    dict(name="exit.many.%s" % w, src="C07/exitmany.c", defines=["NM=260", 'CMDWORD="%s"' % w, "printf=verif_printf_noop"],
+         rename_defs={"src/extract.c": ["test_archived_file_crc", "extract_archived_file"]},
+         unwind=8, unwindset={"test_file_crc.0": 263, "extract_archive.0": 263}, timeout=300, mem_gb=4,
+         units=["src/main.c:main,do_command,parse_command_line,parse_options", "src/extract.c:test_file_crc,extract_archive"],
+         bounds="command '%s', 0..260 members, arbitrary verdict per member (so every failure count 0..260, 256 included)" % w,
+         stubs=["test_archived_file_crc / extract_archived_file: arbitrary verdict (their own harnesses: exit.m3, verdict.*)", "lha_filter_next_file: serves n members",
+                "reader / stream constructors, fopen/fclose, list commands, printing: no-op stubs"])
+    for w in ("t", "x")
 ]
